@@ -453,7 +453,8 @@ def run(v, tier, seed, g):
     #      statement grammar) against the real Formatter, token by token, on every statement of the corpus kernels
     import corpus as _corpus
     import stmtcorr
-    sc = stmtcorr.run(list(_corpus.PINNED) + _corpus.random_cases(seed + 3, 6 if tier == "quick" else 120))
+    sc = stmtcorr.run((list(_corpus.PINNED)[::2] if tier == "quick" else list(_corpus.PINNED)) + _corpus.random_cases(seed + 3, 4 if tier == "quick" else 120),
+                      max_tokens=20000 if tier == "quick" else 60000)
     v.oblige(sc["kernels"] > 0 and sc["equal"] == sc["kernels"] and not sc["errors"], max(sc["kernels"], 1))
     for e in sc["errors"][:2]:
         v.violation(f"stmt-model-harness:{e[0]}", f"the statement-printer correspondence could not be evaluated for case {e[0]}: {e[1]}", {"error": e}, no_input=True)
